@@ -10,6 +10,7 @@
  4. Binding self-test: a corrupted trace must be rejected.
 """
 import copy, itertools, json, os, random, time
+from collections import Counter
 from .. import tlc, tracecheck, evidence, common
 from .. import expect_driver as D
 from .. import pat as P
@@ -214,12 +215,36 @@ def run(ctx):
         len(traces), gen_s, len(uniq), nontrivial, sum(len(t['ev']) for t in uniq)))
     verdicts, st = tracecheck.validate(uniq, 'ExpectTrace', ctx.work, constants=TRACE_CONSTS, procs=16)
     ctx.note('TLC trace validation: %d traces, %d states, %.0fs' % (len(uniq), st['distinct'], st['wall_s']))
-    from collections import Counter
     cnt = Counter(v[0] for v in verdicts.values())
     ctx.note('verdicts: ' + ', '.join('%s x%d' % kv for kv in sorted(cnt.items())))
     harness_bad = [k for k, v in verdicts.items() if v[0].startswith('harness:')]
     if harness_bad:
         raise tlc.TLCError('harness-level verdicts (bug in /verif): %s' % harness_bad[:3])
+    real_note = None
+    if pid == 'C04':
+        # the transport half of C04: the same clauses on the real transports
+        from . import c04_transports as CT
+        from multiprocessing import Pool
+        with Pool(12) as pool:
+            routs = CT.corpus(ctx, pool)
+        errs = [r for r in routs if 'error' in r]
+        if errs:
+            raise tlc.TLCError('real-transport run crashed: %s\n%s' % (errs[0]['meta'], errs[0]['error']))
+        for r in routs:
+            r['id'] = 'real-%d' % r['id']
+        rv, rst = tracecheck.validate(routs, 'ExpectTrace', ctx.work, constants=TRACE_CONSTS, procs=8, tag='realtr')
+        rcnt = Counter(v[0] for v in rv.values())
+        real_note = '%d calls on real transports (%s) validated: %s' % (len(routs), ', '.join(CT.TRANSPORTS),
+                                                                       ', '.join('%s x%d' % kv for kv in sorted(rcnt.items())))
+        ctx.note(real_note)
+        for r in routs:
+            v, at = rv[r['id']]
+            if v.startswith('harness:'):
+                raise tlc.TLCError('harness-level verdict on real transport: %s %s' % (v, r['meta']))
+            if v != 'ok' and v.startswith('C04:'):
+                ctx.fail(v, {'real_transport': r['meta']}, detail={'event_index': at, 'events': r['ev'][:at]},
+                         signature={'transport': r['meta']['transport'], 'unicode': r['meta']['unicode']})
+        uniq_real = routs
     st_self = self_test(ctx, uniq, verdicts)
     ctx.note('binding self-test: ' + ', '.join('%s -> %s' % kv for kv in sorted(st_self.items())))
     for t in uniq:
